@@ -117,9 +117,9 @@ def parseNic (j : Json) : R (Bytes × NicAns) := do
   pure (← bytesF j "name", { mtu := ← field j "mtu" >>= parseIo asNat, flags := ← field j "flags" >>= parseIo asNat,
                               eth := ← field j "eth" >>= parseIo parseEth })
 
-def jStats (sep : Bytes) : StatsOut → Json
+def jStats (txt : NicRow → Bytes) : StatsOut → Json
   | .rows rs => jObj [("kind", "ok"), ("rows", jList (fun (p : Bytes × NicRow) =>
-      Json.arr #[jBytes p.1, Json.bool p.2.isup, jNat p.2.duplex, jInt p.2.speed, jNat p.2.mtu, jBytes (joinWith sep (p.2.flags.map ofString))]) rs)]
+      Json.arr #[jBytes p.1, Json.bool p.2.isup, jNat p.2.duplex, jInt p.2.speed, jNat p.2.mtu, jBytes (txt p.2)]) rs)]
   | .osError c => jObj [("kind", "exc"), ("exc", "OSError"), ("errno", jNat c)]
   | .keyError d => jObj [("kind", "exc"), ("exc", "KeyError"), ("key", jNat d)]
   | .ub => jObj [("kind", "ub")]
@@ -279,7 +279,8 @@ def handle (_ : Unit) (j : Json) : R (Unit × Json) := do
   else if op == "netifstats" then
     let nics ← listF parseNic j "nics"
     if !(nics.all fun p => match p.2.eth with | .ok (_, hi, lo) => hi < 65536 && lo < 65536 | .error _ => true) then .error "halves are 16-bit"
-    return ((), jObj [("model", jStats tcfg.flagSep (netIfStats tcfg ecfg iffLinux Gen.C17.iffMask nics)), ("spec", jStats [44] (Spec.netIfStats nics []))])
+    return ((), jObj [("model", jStats (·.flagsText tcfg) (netIfStats tcfg ecfg iffLinux Gen.C17.iffMask nics)),
+                      ("spec", jStats (fun r => joinWith [44] (r.flags.map ofString)) (Spec.netIfStats nics []))])
   else if op == "netifaddrs" then
     let es ← listF parseIfEntry j "entries"
     let raw := (ifRows ncfg mcfg es).filterMap rowOfVals
